@@ -21,14 +21,18 @@ pub assume_specification<T>[ <Box<T> as From<T>>::from ](t: T) -> (b: Box<T>) en
 pub enum PluralCategory { Zero, One, Two, Few, Many, Other }
 // fixed_decimal: only the conversion of a float literal is used
 #[verifier::external_body] pub struct FixedDecimal { _p: u8 }
-pub enum FloatPrecision { Floating }
-pub uninterp spec fn decimal_of(f: f64) -> FixedDecimal;
+// fixed_decimal::FloatPrecision, same variants: how many digits of the float are kept
+pub enum FloatPrecision { Integer, Magnitude(i16), SignificantDigits(u8), Floating }
+pub uninterp spec fn decimal_with(f: f64, p: FloatPrecision) -> FixedDecimal;
+/// the decimal that denotes the float exactly as written (shortest round-trip digits): the operand CLDR
+/// rules must see, since the visible fraction digits take part in the rules
+pub open spec fn decimal_of(f: f64) -> FixedDecimal { decimal_with(f, FloatPrecision::Floating) }
 pub uninterp spec fn decimal_ok(f: f64) -> bool;
 impl FixedDecimal {
     pub open spec fn try_from_f64_ok(f: f64) -> bool { decimal_ok(f) }
     #[verifier::external_body]
     pub fn try_from_f64(f: f64, p: FloatPrecision) -> (r: core::result::Result<FixedDecimal, ()>)
-        ensures r matches Ok(d) ==> d == decimal_of(f), decimal_ok(f) ==> r is Ok,
+        ensures r matches Ok(d) ==> d == decimal_with(f, p), decimal_ok(f) ==> r is Ok,
     { unimplemented!() }
 }
 pub enum Error {
